@@ -4,7 +4,9 @@ from . import common, generic
 
 RULE = ("one evaluation = one call of Execute on job.NewIsolatedJob(underlying): storms of 32 goroutines (8..128 thorough) calling concurrently with random "
         "pauses while the underlying job counts executions in flight (durations and nil/error/panic outcomes from the seeded PRNG), a probe call after "
-        "each storm with nothing running, a sequential phase, a handshake phase that holds an execution inside the delegate and calls meanwhile, and "
+        "each storm with nothing running, a sequential phase, a handshake phase that holds an execution inside the delegate and calls meanwhile, a "
+        "lingering phase (an overlapping call is made from its own goroutine and not waited for; the underlying job's Description() blocks once if the wrapper "
+        "calls it; the held execution finishes and returns; the next call must be admitted whether or not the overlapping call has come back), and "
         "the wrapped job on a real scheduler (unbounded mode, 1 ms interval, 5 ms job). Judged per call: never two executions in flight; a call that "
         "did not reach the delegate returns a non-nil error; a call that did returns exactly what the delegate did; invocations = admitted calls; "
         "with nothing running the next call is admitted, after nil, error and panic alike. Non-trivial = calls refused under contention. "
